@@ -167,9 +167,11 @@ def main(argv=None) -> int:
     # classify
     known_hits: dict[str, int] = {}
     new_violations: list[dict] = []
+    known_samples: dict[str, str] = {}
     for v in violations:
         if v.get("key") in known_open:
             known_hits[v["key"]] = known_hits.get(v["key"], 0) + 1
+            known_samples.setdefault(v["key"], str(v.get("what", ""))[:400])
         else:
             new_violations.append(v)
     for key, n in viol_more.items():
@@ -196,6 +198,7 @@ def main(argv=None) -> int:
         "distinct_values": {name: sorted(vals)[:60] for name, vals in sorted(sets.items())},
         "shards": len(specs),
         "known_findings_hit": known_hits,
+        "known_findings_sample": known_samples,
         "inconclusive_reasons": inconclusive[:10],
     }
     if getattr(mod, "EXHAUSTIVE", {}).get(args.tier):
